@@ -354,6 +354,23 @@ pub fn satisfy_and_judge(out: &mut Out, desc: &Descriptor<PublicKey>, assets: &D
         Ok(Ok((witness, script_sig))) => {
             out.count(&format!("desc sat: {:?}", desc.desc_type()));
             judge_spend(out, &info, &sat, &script_sig, &witness);
+            // Descriptor::satisfy writes into a TxIn (non-malleable mode only): what it wrote
+            // is judged like any other spend
+            if !mall {
+                let mut txin = sat.tx.input[0].clone();
+                let r = std::panic::catch_unwind(std::panic::AssertUnwindSafe(|| desc.satisfy(&mut txin, &sat).is_ok()));
+                match r {
+                    Err(_) => out.line(&format!("J nopanic Descriptor::satisfy {} PANIC", info), "ok"),
+                    Ok(false) => out.line(&format!("J consistent satisfy-fails-but-get_satisfaction-ok {}", info), "ok"),
+                    Ok(true) => {
+                        let w: Vec<Vec<u8>> = txin.witness.to_vec();
+                        if w != witness || txin.script_sig != script_sig {
+                            let info2 = format!("{} via=Descriptor::satisfy", info);
+                            judge_spend(out, &info2, &sat, &txin.script_sig, &w);
+                        } else { out.count("Descriptor::satisfy wrote the get_satisfaction result"); }
+                    }
+                }
+            }
             true
         }
     }
